@@ -24,6 +24,11 @@ def lookup {κ ν} [DecidableEq κ] (m : List (κ × ν)) (k : κ) : Option ν :
 def goSlice (s : Str) (lo hi : Nat) : Option Str :=
   if lo ≤ hi ∧ hi ≤ s.length then some ((s.take hi).drop lo) else none
 
+/-- `strings.Contains(s, pat)` -/
+def hasInfix (pat : Str) : Str → Bool
+  | [] => pat.isEmpty
+  | c :: t => (c :: t).take pat.length = pat || hasInfix pat t
+
 /-- `strings.LastIndex(s, string(c))` (`none` = -1) -/
 def lastIndexOf (c : Char) : Str → Option Nat
   | [] => none
@@ -250,6 +255,25 @@ def extract (d : Doc) : List NV :=
   let m2 := if sv.isEmpty then m1 else set m1 ("stdlib".toList, []) ⟨"stdlib".toList, sv⟩
   -- final de-duplication pass keyed by the CURRENT (name, version)
   (m2.foldl (fun acc kv => set acc (kv.2.name, kv.2.version) kv.2) ([] : KMap)).map (·.2)
+
+/-- what the go.sum branch reads: `none` = go.sum cannot be opened, or one of its lines does not have three fields (the error is logged
+and the go.mod result returned as it is); `some es` = the (module, version) fields of its non-empty lines -/
+abbrev Sum := Option (List (Str × Str))
+
+/-- one go.sum line: the version loses its leading "v"; `<version>/go.mod` lines (hashes of go.mod files) are skipped -/
+def sumEntry (e : Str × Str) : Option NV :=
+  let v := trimPrefixV e.2
+  if hasInfix "/go.mod".toList v then none else some ⟨e.1, v⟩
+
+/-- the merge loop of `Extract`: a go.sum module that is not yet reported under that (name, version) is added -/
+def addSum (acc : List NV) (p : NV) : List NV := if acc.contains p then acc else acc ++ [p]
+
+/-- `Extract` with the go.sum branch: `older` = the go / toolchain version is set and older than go1.17 (`version.Compare`, supplied
+by the harness); then every module of go.sum is reported too -/
+def extractWithSum (d : Doc) (older : Bool) (sum : Sum) : List NV :=
+  match older, sum with
+  | true, some es => (es.filterMap sumEntry).foldl addSum (extract d)
+  | _, _ => extract d
 end GoMod
 
 end Scalibr.Lockfiles
